@@ -145,6 +145,8 @@ def make_worker(case, ctx, name, marker, cls=None, extra_kwargs=None):
         target, args = vtargets.item_or_raise, None
     elif sc.startswith('raise:'):
         target, args = vtargets.raise_exc, [sc.split(':')[1], ['a', 1]]
+    elif sc.startswith('slowload:'):
+        target, args = vtargets.ret_slowload, [int(sc.split(':')[1]) / 1000.0]
     elif sc.startswith('big:'):
         target, args = vtargets.make_bytes, [int(sc.split(':')[1])]
     else:
@@ -343,6 +345,23 @@ def execute(case, ctx, cls=None, extra_kwargs=None, after_create=None):
                 bounded(w.terminate, GUARD, **tkw)
             except BaseException:
                 pass
+        elif case.get('poll') is not None:
+            # poll with a tiny timeout: the first True is the moment the worker is "observed dead"
+            t_end = time.monotonic() + 40
+            r = False
+            n_polls = 0
+            try:
+                while time.monotonic() < t_end:
+                    n_polls += 1
+                    r = bounded(w.wait, GUARD, case['poll'])
+                    if r:
+                        break
+                obs['wait_ret'] = r
+                obs['polls'] = n_polls
+            except Blocked:
+                obs['wait_ret'] = 'blocked'
+            except BaseException as e:
+                obs['wait_ret'] = 'raised:' + type(e).__name__
         else:
             try:
                 obs['wait_ret'] = bounded(w.wait, GUARD, 10)
@@ -356,7 +375,7 @@ def execute(case, ctx, cls=None, extra_kwargs=None, after_create=None):
             alive = bounded(w.is_alive, 10)
         except BaseException as e:
             alive = 'raised:' + type(e).__name__
-        obs['dead'] = (alive is False)
+        obs['dead'] = (alive is False) or (case.get('poll') is not None and obs.get('wait_ret') is True)
         if alive is True:
             try:
                 bounded(w.terminate, GUARD, timeout=2, force=(not kind.endswith('thread')))
